@@ -229,9 +229,15 @@ func runCase(c *fw.Ctx, id string, idx int) {
 // checks font size and, for the first show after a positioning step, origin.
 func compareFragments(c *fw.Ctx, id, cls string, frags []text.TextFragment, ref *imaging.Interp, detail map[string]any) {
 	byText := map[string][]text.TextFragment{}
+	shown := frags[:0:0] // a fragment without text (from a show operator with an empty string) is nothing shown
 	for _, f := range frags {
+		if f.Text == "" {
+			continue
+		}
+		shown = append(shown, f)
 		byText[f.Text] = append(byText[f.Text], f)
 	}
+	frags = shown
 	for n, s := range ref.Shows {
 		fs := byText[s.Text]
 		if len(fs) != 1 {
